@@ -30,6 +30,7 @@ func (c *vChainRPC) GetBlockHeight() (uint64, error) {
 	return uint64(zzverif.U32("rpc.height")), nil
 }
 func (c *vChainRPC) GetTxOut(txid string, vout uint32) (*txwatcher.TxOutResp, error) {
+	c.w.yieldPoint("rpc")
 	if c.gate != nil {
 		// both goroutines stop here (one holds the watcher lock, the other the swap mutex) until both arrived
 		c.arrived <- struct{}{}
@@ -155,4 +156,99 @@ func H_C18_lockOrder() {
 		}
 	}
 	zzverif.Assert(true, "C18.no_lock_order_cycle")
+}
+
+// H_C18_cancelAfterCsvMaturedFlow_NoPanic: the same situation end to end with the goroutines the code
+// itself starts: the cancel / failed coop_close is handled, the maker enters WaitCsv and registers the csv
+// watch, the real watcher looks at the chain from its own goroutine (a logical goroutine: it runs at once
+// and is parked on the swap mutex the message handler still holds, then resumed when the handler lets go).
+// Nobody stays blocked, and if the chain said "mature" the swap has moved on to the csv claim.
+func H_C18_cancelAfterCsvMaturedFlow_NoPanic() {
+	sc, _, rpc := vRealWatcherScenario(State_SwapInSender_AwaitClaimPayment)
+	if sc.role == rOutReceiver {
+		sc.sm.Current, sc.sm.Data.FSMState = State_SwapOutReceiver_AwaitClaimInvoicePayment, State_SwapOutReceiver_AwaitClaimInvoicePayment
+	}
+	stim := stMsgCancel
+	if zzverif.Bool("coop_close") {
+		stim = stMsgCoopClose
+	}
+	zzverif.GoLogical(true)
+	sc.vApply(stim)
+	zzverif.GoLogical(false)
+	if !zzverif.Symbolic() {
+		time.Sleep(300 * time.Millisecond) // the watcher's goroutine finishes
+	}
+	zzverif.Reach("c18.flow_handler_returned")
+	zzverif.Assert(zzverif.Blocked() == 0, "C18.flow_nobody_blocked")
+	zzverif.Assert(zzverif.LocksHeld() == 0, "C18.flow_all_locks_released")
+	if rpc.answered && rpc.lastConfs >= 1008 {
+		zzverif.Reach("c18.flow_csv_matured")
+		post := sc.vCurrent()
+		zzverif.Assert(post == State_ClaimedCsv || post == State_SwapInSender_ClaimSwapCsv || post == State_SwapOutReceiver_ClaimSwapCsv, "C18.flow_matured_csv_leads_to_refund")
+	}
+}
+
+// stimuli of the interleaving entries: what a goroutine of the daemon may be doing to a waiting maker
+const (
+	cvCancel = iota
+	cvCoopClose
+	cvPaidClaim
+	cvBlock
+	cvTimeout
+	cvN
+)
+
+func (sc *vScenario) vFire(k int, wt *txwatcher.BlockchainRpcTxWatcher) {
+	switch k {
+	case cvCancel:
+		sc.vApply(stMsgCancel)
+	case cvCoopClose:
+		sc.vApply(stMsgCoopClose)
+	case cvPaidClaim:
+		sc.vApply(stPaidClaim)
+	case cvBlock:
+		zzverif.Effect("stimulus", "block")
+		wt.HandleCsvTx(uint64(zzverif.U32("block")))
+	case cvTimeout:
+		sc.vApply(stTimeout)
+	}
+}
+
+// H_C18_interleavedHandlers_NoPanic: schedules.  Two handlers of the daemon work on the same waiting maker
+// at the same time: the first (peer message, payment notification, block notification, timeout) is inside a
+// call to a collaborator - the chain RPC, the messenger, the wallet - when the second arrives on its own
+// goroutine.  With the REAL rpc tx watcher wired in as Start() does and the goroutines the code starts
+// itself running as logical goroutines: whatever the pair and whatever the chain answers, nobody ends up
+// waiting forever for a mutex and all locks are released.
+// Bounds: one preemption (at a collaborator call of the first handler), 5 x 5 handler pairs, maker in
+// AwaitClaimPayment / AwaitClaimInvoicePayment or already in WaitCsv, no injected service faults.
+func H_C18_interleavedHandlers_NoPanic() {
+	st := State_SwapInSender_AwaitClaimPayment
+	inWaitCsv := zzverif.Bool("in_waitcsv")
+	if inWaitCsv {
+		st = State_WaitCsv
+	}
+	sc, wt, _ := vRealWatcherScenario(st)
+	if sc.role == rOutReceiver && !inWaitCsv {
+		sc.sm.Current, sc.sm.Data.FSMState = State_SwapOutReceiver_AwaitClaimInvoicePayment, State_SwapOutReceiver_AwaitClaimInvoicePayment
+	}
+	d := sc.sm.Data
+	// the swap's csv watch is registered (the state's action did that when the state was entered)
+	wt.AddWaitForCsvTx(sc.id, d.OpeningTxBroadcasted.TxId, d.OpeningTxBroadcasted.ScriptOut, d.StartingBlockHeight, 1008, nil)
+	w := sc.env.w
+	first, second := zzverif.Choice("first", cvN), zzverif.Choice("second", cvN)
+	w.yieldAt = []string{"rpc", "send", "wallet"}[zzverif.Choice("yield.kind", 3)]
+	w.interleave = func() { sc.vFire(second, wt) }
+	zzverif.GoLogical(true)
+	sc.vFire(first, wt)
+	zzverif.GoLogical(false)
+	if !w.interleaved {
+		return // the first handler never reached such a call: sequential handling is the step entries' subject
+	}
+	if !zzverif.Symbolic() {
+		time.Sleep(300 * time.Millisecond)
+	}
+	zzverif.Reach("c18.interleaved")
+	zzverif.Assert(zzverif.Blocked() == 0, "C18.interleaved_nobody_blocked")
+	zzverif.Assert(zzverif.LocksHeld() == 0, "C18.interleaved_all_locks_released")
 }
